@@ -1,10 +1,13 @@
 package props
 
 import (
+	"golang.org/x/tools/go/ssa"
+
 	"fmt"
 	"go/ast"
 	"go/token"
 	"go/types"
+	"mpcverif/internal/flow"
 	"strings"
 
 	"mpcverif/internal/dispatch"
@@ -31,7 +34,7 @@ func conjuncts(e ast.Expr, op token.Token) []string {
 // C09guards: the optimisation passes rewrite only under their guards; the wire bit fields are consistent; the GMW sort keeps levels.
 func C09guards(p *load.Program, run *report.Run) {
 	run.Rule("wire-bit-fields", "outputMask, valueMask and numMask of circuits.Wire are pairwise disjoint, cover 32 bits, valueMask is two bits at valueShift and numMask everything below")
-	run.Rule("xor-zero-shortcut-guard", "ShortCircuitXORZero redirects the producer of one input to the gate's output only if the other input is the constant zero, the redirected wire is not a circuit input and has exactly one consumer")
+	run.Rule("xor-zero-shortcut-guard", "every path of ShortCircuitXORZero to a ResetOutput call passes the true edge of a test that an input of the gate has the value Zero, the false edge of IsInput() on the redirected wire, and either the edge on which the redirected wire has exactly one consumer or — the other consumers being re-pointed — the edge on which the gate's output is not a circuit output")
 	run.Rule("prune-guard", "Gate.Prune kills a gate only if it is not already dead, its output is not a circuit output and has no consumer")
 	run.Rule("gmw-level-sort", "the GMW re-sort of the assigned gates is stable and orders by Level first, so no gate moves before a producer of its inputs")
 	pkg := p.ByPath[load.Module+"/compiler/circuits"]
@@ -51,54 +54,13 @@ func C09guards(p *load.Program, run *report.Run) {
 	default:
 		run.OK("wire-bit-fields", "compiler/circuits.Wire/masks", "", fmt.Sprintf("1+2+%d bits", vs))
 	}
-	// (b)
+	// (b) on the SSA form: what must lie on every path to a ResetOutput, wherever the tests are written
+	if fnS, err := p.Method("compiler/circuits", "Compiler", "ShortCircuitXORZero"); err == nil {
+		c09shortcut(p, run, fnS)
+	} else {
+		run.Undecided("xor-zero-shortcut-guard", "compiler/circuits.Compiler.ShortCircuitXORZero", "", err.Error())
+	}
 	if _, fd := dispatch.FindFunc(p, "compiler/circuits", "Compiler", "ShortCircuitXORZero"); fd != nil {
-		n := 0
-		ast.Inspect(fd.Body, func(x ast.Node) bool {
-			ifs, ok := x.(*ast.IfStmt)
-			if !ok {
-				return true
-			}
-			var reset *ast.CallExpr
-			for _, s := range ifs.Body.List {
-				if es, ok := s.(*ast.ExprStmt); ok {
-					if c, ok := es.X.(*ast.CallExpr); ok {
-						if _, name, _ := callName(c); name == "ResetOutput" {
-							reset = c
-						}
-					}
-				}
-			}
-			if reset == nil {
-				return true
-			}
-			n++
-			run.Count("shortcut-sites", 1)
-			// which input is redirected: g.B.Input().ResetOutput(...) -> "g.B"
-			moved := strings.TrimSuffix(types.ExprString(reset.Fun), ".Input().ResetOutput")
-			other := "g.A"
-			if moved == "g.A" {
-				other = "g.B"
-			}
-			cs := map[string]bool{}
-			for _, c := range conjuncts(ifs.Cond, token.LAND) {
-				cs[c] = true
-			}
-			key := fmt.Sprintf("compiler/circuits.Compiler.ShortCircuitXORZero/%s", moved)
-			need := []string{"Zero == " + other + ".Value()", "!" + moved + ".IsInput()", "1 == " + moved + ".Input().O.NumOutputs()"}
-			missing := ""
-			for _, c := range need {
-				if !cs[c] {
-					missing = c
-				}
-			}
-			if missing != "" {
-				run.Violate("xor-zero-shortcut-guard", key, p.Rel(ifs.Pos()), "the rewrite is not guarded by "+missing, nil)
-			} else {
-				run.OK("xor-zero-shortcut-guard", key, p.Rel(ifs.Pos()), strings.Join(need, " && "))
-			}
-			return true
-		})
 		// the pass touches XOR gates only
 		onlyXor := false
 		ast.Inspect(fd.Body, func(x ast.Node) bool {
@@ -115,7 +77,7 @@ func C09guards(p *load.Program, run *report.Run) {
 			run.Violate("xor-zero-shortcut-guard", "compiler/circuits.Compiler.ShortCircuitXORZero/op", p.Rel(fd.Pos()), "the pass is not restricted to XOR gates (x ^ 0 = x holds for XOR only)", nil)
 		}
 	}
-	run.Floor("shortcut-sites", 2)
+	run.Floor("shortcut-sites", 1)
 	// (c)
 	if _, fd := dispatch.FindFunc(p, "compiler/circuits", "Gate", "Prune"); fd != nil {
 		okGuard := false
@@ -213,4 +175,163 @@ func isOpNeq(e ast.Expr, op string) bool {
 		return t.Name == op
 	}
 	return false
+}
+
+// c09shortcut: the guards of the XOR-with-zero shortcut as edges that every path to the rewrite must take.
+func c09shortcut(p *load.Program, run *report.Run, fn *ssa.Function) {
+	const rule = "xor-zero-shortcut-guard"
+	calleeName := func(v ssa.Value) (string, []ssa.Value) {
+		c, ok := v.(*ssa.Call)
+		if !ok || c.Call.StaticCallee() == nil {
+			return "", nil
+		}
+		return c.Call.StaticCallee().Name(), c.Call.Args
+	}
+	// edges
+	zeroEdges := map[[2]int]bool{}
+	oneConsumer := map[[2]int]bool{}
+	notOutput := map[[2]int]bool{}
+	notInput := map[ssa.Value]map[[2]int]bool{} // wire value -> edges on which it is not a circuit input
+	zeroK, okZ := pkgConstIn(p, "compiler/circuits", "Zero")
+	if !okZ {
+		run.Undecided(rule, "compiler/circuits.Zero", "", "constant not found")
+		return
+	}
+	for _, b := range fn.Blocks {
+		iff, ok := b.Instrs[len(b.Instrs)-1].(*ssa.If)
+		if !ok {
+			continue
+		}
+		cond := iff.Cond
+		neg := false
+		for {
+			if u, ok := cond.(*ssa.UnOp); ok && u.Op == token.NOT {
+				cond, neg = u.X, !neg
+				continue
+			}
+			break
+		}
+		edge := func(whenTrue bool) [2]int {
+			if whenTrue != neg {
+				return [2]int{b.Index, 0}
+			}
+			return [2]int{b.Index, 1}
+		}
+		if bo, ok := cond.(*ssa.BinOp); ok && (bo.Op == token.EQL || bo.Op == token.NEQ) {
+			for _, side := range [][2]ssa.Value{{bo.X, bo.Y}, {bo.Y, bo.X}} {
+				name, _ := calleeName(side[0])
+				k, isK := side[1].(*ssa.Const)
+				if !isK || k.Value == nil {
+					continue
+				}
+				switch {
+				case name == "Value" && k.Int64() == zeroK:
+					zeroEdges[edge(bo.Op == token.EQL)] = true
+				case name == "NumOutputs" && k.Int64() == 1:
+					oneConsumer[edge(bo.Op == token.EQL)] = true
+				}
+			}
+			continue
+		}
+		name, args := calleeName(cond)
+		switch name {
+		case "IsInput":
+			if len(args) == 1 {
+				if notInput[args[0]] == nil {
+					notInput[args[0]] = map[[2]int]bool{}
+				}
+				notInput[args[0]][edge(false)] = true
+			}
+		case "Output":
+			notOutput[edge(false)] = true
+		}
+	}
+	sites := 0
+	for _, b := range fn.Blocks {
+		for _, ins := range b.Instrs {
+			c, ok := ins.(*ssa.Call)
+			if !ok || c.Call.StaticCallee() == nil || c.Call.StaticCallee().Name() != "ResetOutput" || len(c.Call.Args) < 1 {
+				continue
+			}
+			sites++
+			run.Count("shortcut-sites", 1)
+			key := fmt.Sprintf("compiler/circuits.Compiler.ShortCircuitXORZero/rewrite#%d", sites)
+			// the redirected wire: ResetOutput is called on wire.Input()
+			var wire ssa.Value
+			recv := c.Call.Args[0]
+			for d := 0; d < 4 && wire == nil; d++ {
+				switch t := recv.(type) {
+				case *ssa.Call:
+					if t.Call.StaticCallee() != nil && t.Call.StaticCallee().Name() == "Input" && len(t.Call.Args) == 1 {
+						wire = t.Call.Args[0]
+					} else {
+						d = 4
+					}
+				case *ssa.Phi:
+					// one driver variable for both inputs
+					if len(t.Edges) > 0 {
+						recv = t.Edges[0]
+					}
+				default:
+					d = 4
+				}
+			}
+			missing := ""
+			if flow.ReachableWithoutEdges(fn, zeroEdges, b) {
+				missing = "a test that an input of the gate is the constant zero"
+			}
+			if missing == "" {
+				okIn := false
+				for w, edges := range notInput {
+					if wire != nil && !sameWireValue(w, wire) {
+						continue
+					}
+					if !flow.ReachableWithoutEdges(fn, edges, b) {
+						okIn = true
+					}
+				}
+				if !okIn {
+					missing = "a test that the redirected wire is not a circuit input"
+				}
+			}
+			if missing == "" {
+				alt := map[[2]int]bool{}
+				for e := range oneConsumer {
+					alt[e] = true
+				}
+				for e := range notOutput {
+					alt[e] = true
+				}
+				if flow.ReachableWithoutEdges(fn, alt, b) {
+					missing = "a test that the redirected wire has exactly one consumer, or (its other consumers being re-pointed to the gate's output) that the gate's output is not a circuit output"
+				}
+			}
+			if missing != "" {
+				run.Violate(rule, key, p.Rel(c.Pos()), "the rewrite can be reached without "+missing, nil)
+			} else {
+				run.OK(rule, key, p.Rel(c.Pos()), "zero input, not a circuit input, single consumer or re-pointed away from a circuit output")
+			}
+		}
+	}
+	if sites == 0 {
+		run.Undecided(rule, "compiler/circuits.Compiler.ShortCircuitXORZero", p.Rel(fn.Pos()), "no ResetOutput call found")
+	}
+}
+
+// sameWireValue: the two values are one SSA value, or loads of the same field of the same object.
+func sameWireValue(a, b ssa.Value) bool {
+	if a == b {
+		return true
+	}
+	la, ok1 := a.(*ssa.UnOp)
+	lb, ok2 := b.(*ssa.UnOp)
+	if !ok1 || !ok2 || la.Op != token.MUL || lb.Op != token.MUL {
+		return false
+	}
+	if la.X == lb.X {
+		return true // two reads of one variable (a captured local lives in a cell)
+	}
+	fa, ok1 := la.X.(*ssa.FieldAddr)
+	fb, ok2 := lb.X.(*ssa.FieldAddr)
+	return ok1 && ok2 && fa.X == fb.X && fa.Field == fb.Field
 }
